@@ -126,10 +126,34 @@ func calledMethods(body ast.Node, recv string) []string {
 					out = append(out, se.Sel.Name)
 				}
 			}
+			if n := plainCallee(ce.Fun); n != "" {
+				out = append(out, n)
+			}
 		}
 		return true
 	})
 	return out
+}
+
+// name of a plainly called function: f(...), f[T](...), f[T, U](...)
+func plainCallee(e ast.Expr) string {
+	switch x := e.(type) {
+	case *ast.Ident:
+		return x.Name
+	case *ast.IndexExpr:
+		return plainCallee(x.X)
+	case *ast.IndexListExpr:
+		return plainCallee(x.X)
+	}
+	return ""
+}
+
+// a call inside function Caller to a function declared in the same file
+type callSite struct {
+	File, Caller, CallerCtx string
+	Callee                  string // declared name (without receiver)
+	Args                    []string
+	LastRecv                string // class of the plain receive before the call in Caller
 }
 
 func extractAll(repo string) ([]point, []closer, error) {
@@ -172,6 +196,9 @@ func extractAll(repo string) ([]point, []closer, error) {
 	var pts []point
 	var cls []closer
 	lastRecv := map[string]string{}
+	var sites []callSite
+	params := map[string][]string{}   // file|declared func name (with receiver) -> parameter names
+	fullName := map[string]string{}   // file|bare name -> name with receiver
 	for _, fi := range files {
 		// buffering of struct-field / local channels from make() sites in this file
 		buf := map[string]string{}
@@ -301,6 +328,17 @@ func extractAll(repo string) ([]point, []closer, error) {
 				continue
 			}
 			fname := recvName(fd, fset)
+			fullName[fi.rel+"|"+fd.Name.Name] = fname
+			if fd.Type.Params != nil {
+				for _, f := range fd.Type.Params.List {
+					for _, nm := range f.Names {
+						params[fi.rel+"|"+fname] = append(params[fi.rel+"|"+fname], nm.Name)
+					}
+					if len(f.Names) == 0 {
+						params[fi.rel+"|"+fname] = append(params[fi.rel+"|"+fname], "_")
+					}
+				}
+			}
 			ctx := "internal"
 			switch fi.kind {
 			case "engine":
@@ -373,6 +411,21 @@ func extractAll(repo string) ([]point, []closer, error) {
 								goN++
 								walk(fl.Body, fmt.Sprintf("%s$go%d", fn, goN), "go")
 								return false
+							}
+						}
+						{
+							callee := plainCallee(x.Fun)
+							if se, ok := x.Fun.(*ast.SelectorExpr); ok {
+								if id, ok := se.X.(*ast.Ident); ok && fd.Recv != nil && len(fd.Recv.List) > 0 && len(fd.Recv.List[0].Names) > 0 && id.Name == fd.Recv.List[0].Names[0].Name {
+									callee = se.Sel.Name
+								}
+							}
+							if callee != "" && decls[callee] != nil && callee != "close" {
+								var args []string
+								for _, a := range x.Args {
+									args = append(args, exprStr(fset, a))
+								}
+								sites = append(sites, callSite{File: fi.rel, Caller: fn, CallerCtx: cx, Callee: callee, Args: args, LastRecv: lastRecv[fi.rel+"|"+fn]})
 							}
 						}
 						if id, ok := x.Fun.(*ast.Ident); ok && id.Name == "close" && len(x.Args) == 1 {
@@ -449,6 +502,7 @@ func extractAll(repo string) ([]point, []closer, error) {
 			walk(fd.Body, fname, ctx)
 		}
 	}
+	pts, cls = specialise(pts, cls, sites, params, fullName)
 	sort.SliceStable(pts, func(i, j int) bool {
 		if pts[i].File != pts[j].File {
 			return pts[i].File < pts[j].File
@@ -518,4 +572,115 @@ func gen(out string) error {
 		return nil
 	}
 	return vh.WriteIfChanged(out, sb.String())
+}
+
+
+// Inter-procedural step (within a file = within a package's client.go/server.go):
+//  * a blocking point of a helper whose channel is one of the helper's
+//    parameters is emitted once per call site with the actual argument
+//    substituted (generic helpers like awaitReply[T](c, c.hasTxResultChan)),
+//    through up to three call levels;
+//  * a close()/Signal()/Broadcast() inside a helper is ALSO a close site of
+//    every function (in particular every `go` literal) that calls the helper,
+//    with the plain receive that precedes the call in that caller.
+func specialise(pts []point, cls []closer, sites []callSite, params map[string][]string, fullName map[string]string) ([]point, []closer) {
+	subst := func(ch string, ps, args []string) (string, bool) {
+		for i, p := range ps {
+			if i >= len(args) || p == "_" {
+				continue
+			}
+			if ch == p {
+				return args[i], true
+			}
+			if strings.HasPrefix(ch, p+".") {
+				return args[i] + ch[len(p):], true
+			}
+		}
+		return ch, false
+	}
+	mentions := func(ch string, ps []string) bool {
+		_, ok := subst(ch, ps, make([]string, len(ps)))
+		return ok
+	}
+	for round := 0; round < 3; round++ {
+		changed := false
+		var outP []point
+		for _, p := range pts {
+			key := p.File + "|" + p.Func
+			ps := params[key]
+			uses := mentions(p.Chan, ps)
+			for _, a := range p.Alts {
+				if mentions(a.Chan, ps) {
+					uses = true
+				}
+			}
+			var mySites []callSite
+			if uses {
+				for _, cs := range sites {
+					if cs.File == p.File && fullName[cs.File+"|"+cs.Callee] == p.Func {
+						mySites = append(mySites, cs)
+					}
+				}
+			}
+			if len(mySites) == 0 {
+				outP = append(outP, p)
+				continue
+			}
+			changed = true
+			for _, cs := range mySites {
+				q := p
+				q.Chan, _ = subst(p.Chan, ps, cs.Args)
+				q.Class = classify(q.Chan)
+				if q.Op == "wait" || q.Op == "lock" {
+					q.Class = "sync"
+				}
+				q.Alts = nil
+				for _, a := range p.Alts {
+					b := a
+					if a.Op != "default" {
+						b.Chan, _ = subst(a.Chan, ps, cs.Args)
+						b.Class = classify(b.Chan)
+					}
+					q.Alts = append(q.Alts, b)
+				}
+				// the specialised point lives on in the caller if the argument is itself a parameter there
+				outP = append(outP, q)
+				if mentions(q.Chan, params[cs.File+"|"+cs.Caller]) {
+					outP[len(outP)-1].Func = cs.Caller
+					outP[len(outP)-1].Ctx = cs.CallerCtx
+				}
+			}
+		}
+		pts = outP
+		var add []closer
+		have := map[string]bool{}
+		for _, c := range cls {
+			have[c.File+"|"+c.Func+"|"+c.Chan+"|"+c.After] = true
+		}
+		for _, c := range cls {
+			ps := params[c.File+"|"+c.Func]
+			for _, cs := range sites {
+				if cs.File != c.File || fullName[cs.File+"|"+cs.Callee] != c.Func {
+					continue
+				}
+				n := c
+				n.Func, n.Ctx = cs.Caller, cs.CallerCtx
+				n.Chan, _ = subst(c.Chan, ps, cs.Args)
+				if c.After == "" {
+					n.After = cs.LastRecv
+				}
+				k := n.File + "|" + n.Func + "|" + n.Chan + "|" + n.After
+				if !have[k] {
+					have[k] = true
+					add = append(add, n)
+					changed = true
+				}
+			}
+		}
+		cls = append(cls, add...)
+		if !changed {
+			break
+		}
+	}
+	return pts, cls
 }
